@@ -15,6 +15,7 @@ C15 driver: interprets the *generated* descriptor table on histories sent by the
   item i <int> | s <a> <b> <c> | n <id> | x      group[key]
   len | observe
   poke <uid> <attr> <id>                  observer.<attr> changed directly
+  parent <uid> <node id|->                observer.parent changed directly (behind the group's back)
   snap <a1,a2,…>                          members with parent flag and the listed attributes
   obj <uid> <a1,a2,…>                     one heap object (also non-members)
 -/
@@ -150,6 +151,10 @@ def step' (st : St) (ts : List String) : St × String :=
       | ["observe"] => (st, showOut (.objs (observe st.w)))
       | ["poke", u, a, x] =>
         (({ st with w := { st.w with heap := st.w.heap.setAttr (pN u) a (pN x) }, anames := addNames st.anames [a] } : St).normalise, "ok")
+      | ["parent", u, g] =>
+        -- observer.parent changed behind the group's back ("-" = None, otherwise the id of the new parent node)
+        let p : Option Nat := if g == "-" then none else some (pN g)
+        (({ st with w := { st.w with heap := st.w.heap.setParent (pN u) p } } : St).normalise, "ok")
       | ["snap", ats] =>
         (st, "n=" ++ toString (groupLen st.w) ++ " " ++ " ".intercalate (st.w.members.map (showObj st.w (csv ats))))
       | ["obj", u, ats] => (st, showObj st.w (csv ats) (pN u))
